@@ -25,9 +25,11 @@ def quote(s):
     return b'"' + b.replace(b"\\", b"\\\\").replace(b'"', b'\\"') + b'"'
 
 
-def multiline(s, eol=b"\n", comment=False):
+def multiline(s, eol=b"\n", comment=False, inner=None):
     """Multi-line token for text s (content is s split in lines; dot-stuffed).
-    The token includes the line break after the final '.'."""
+    The token includes the line break after the final '.'.  inner: line break
+    used inside the block (default: eol); the implementation's token pattern
+    also takes bare CR and repeated breaks there."""
     b = s.encode("utf-8") if isinstance(s, str) else s
     b = b.replace(b"\r\n", b"\n").replace(b"\r", b"")
     lines = b.split(b"\n") if b else []
@@ -37,14 +39,16 @@ def multiline(s, eol=b"\n", comment=False):
             ln = b"." + ln
         out.append(ln)
     out.append(b".")
-    return eol.join(out) + eol
+    return (inner or eol).join(out) + eol
 
 
 @st.composite
 def string_token(draw, hostile=True, allow_mls=True):
     s = draw(value_text(hostile))
     if allow_mls and draw(st.integers(0, 5)) == 0:
-        return multiline(s, draw(st.sampled_from([b"\n", b"\r\n"])), draw(st.booleans()))
+        eol = draw(st.sampled_from([b"\n", b"\r\n"]))
+        inner = draw(st.sampled_from([None, None, None, None, b"\r", b"\n\r", b"\r\r\n", b"\n\n"]))
+        return multiline(s, eol, draw(st.booleans()), inner)
     return quote(s)
 
 
